@@ -199,7 +199,8 @@ class PassInv(LoopInv):
         return to_z3(self.forecast(it).fields['n_cat'])
 
     def pass_key(self, fo, i):
-        return FILT(SRC(to_z3(i))) if fo.fields['apply_filters'] is True else SRC(to_z3(i))
+        src = getattr(fo, 'source_order', None) or (lambda k: SRC(k))     # a re-ordered forecast holds SRC(sigma(k)) at place k
+        return FILT(src(to_z3(i))) if fo.fields['apply_filters'] is True else src(to_z3(i))
 
     def item(self, I, it, i):
         fo = self.forecast(it)
